@@ -308,6 +308,26 @@ def install(seed, max_steps=3000000, max_virtual=3000.0):
         _saved.append((cls, 'get_exception', o))
         cls.get_exception = get_exception
 
+    def wrap_try(cls):
+        # … and every attempt is recorded when it begins: one that is never followed by the assignment had no effect (a job that
+        # keeps its first outcome; two setters racing on the reusable MAIN / INIT entries)
+        o = cls.__dict__.get('_set')
+        if o is None:
+            return
+
+        def _set(self, success, result, _o=o):
+            if not success:
+                sim.S.rec('exc.try', self.job_id, id(result), type(result).__name__)
+            r = _o(self, success, result)
+            if not success:
+                sim.S.rec('exc.try-end', self.job_id, id(result))
+            return r
+
+        _saved.append((cls, '_set', o))
+        cls._set = _set
+
+    for cls in (mpire.async_result.UnorderedAsyncResultIterator, AR):
+        wrap_try(cls)
     watch_attr(mpire.async_result.UnorderedAsyncResultIterator, '_exception', lambda self: True)
     watch_attr(AR, '_value', lambda self: self._success is False)
     for cls in (mpire.async_result.UnorderedAsyncResultIterator, mpire.async_result.AsyncResultWithExceptionGetter, AR):
